@@ -10,6 +10,8 @@ pub mod raw_filter;
 pub mod tls;
 pub mod tls_client_hello_reader;
 pub mod tls_process;
+#[cfg(huginn_net_verif)]
+pub mod verif_hooks;
 
 // Re-exports
 pub use error::*;
